@@ -264,6 +264,29 @@ pub fn chain_threshold(prev_len: usize, long_len: usize, decoys: usize) -> Vec<u
     v
 }
 
+/// Input for the "good enough, stop searching" threshold (nice_length): a string R of `far_len` bytes, later its first
+/// `near_len` bytes followed by something else, later R again. At the last R the nearest candidate on the hash chain
+/// matches exactly `near_len` bytes and the older one `far_len`: the search may stop at the near one only if
+/// near_len >= nice_length of the level.
+pub fn nice_threshold(near_len: usize, far_len: usize) -> Vec<u8> {
+    let mut g = Lcg(0x0bad_5eed ^ (near_len as u32) << 9 ^ far_len as u32);
+    let mut junk = |v: &mut Vec<u8>, n: usize| {
+        for _ in 0..n {
+            v.push(0x80 | (g.next() >> 9) as u8);
+        }
+    };
+    let r: Vec<u8> = (0..far_len as u32).map(|i| 0x20 + ((i.wrapping_mul(2654435761) >> 7) % 0x5f) as u8).collect();
+    let mut v = vec![];
+    junk(&mut v, 40);
+    v.extend_from_slice(&r);
+    junk(&mut v, 23);
+    v.extend_from_slice(&r[..near_len.min(r.len())]);
+    junk(&mut v, 31);
+    v.extend_from_slice(&r);
+    junk(&mut v, 300);
+    v
+}
+
 /// all strings over the first k symbols of `alphabet` with length <= max_len, shortest first
 pub fn tiny_strings(alphabet: &[u8], max_len: usize) -> Vec<Vec<u8>> {
     let k = alphabet.len();
@@ -329,6 +352,21 @@ pub fn shapes(w: usize, m: usize, rich: bool) -> Vec<Named> {
     for d in if rich { vec![max_dist - 1, max_dist, max_dist + 1] } else { vec![max_dist - 1, max_dist] } {
         for pos in if rich { (2 * w - 266..=2 * w - 259).collect::<Vec<_>>() } else { vec![2 * w - 264, 2 * w - 263, 2 * w - 262] } {
             v.push(named(format!("far_at({pos},{d})"), far_at(pos, d, 9, 12)));
+        }
+    }
+    // code-length runs: inputs whose literal set leaves a run of exactly g unused symbols in the literal/length code
+    // (before the first used literal, between two used literals, between the last literal and the end-of-block
+    // symbol), g around every limit of the run-length symbols 17 (3..=10 zeros) and 18 (11..=138 zeros)
+    let gaps: Vec<usize> = if rich { vec![2, 3, 4, 10, 11, 12, 137, 138, 139, 140, 141] } else { vec![3, 11, 138, 139, 140] };
+    for &g in &gaps {
+        let sets: [(&str, Vec<u8>); 3] = [
+            ("leading", (g..g + 13).map(|x| x as u8).collect()),
+            ("interior", std::iter::once(0u8).chain((g + 1..g + 14).map(|x| x as u8)).collect()),
+            ("before-eob", (256 - g - 13..256 - g).map(|x| x as u8).collect()),
+        ];
+        for (kind, set) in sets {
+            let d: Vec<u8> = lcg_bytes(g as u32 + 3, 420).iter().map(|&b| set[(b as usize * 7 / 5) % set.len()]).collect();
+            v.push(named(format!("codelen-gap({kind},{g})"), d));
         }
     }
     // block-type switches
